@@ -887,6 +887,26 @@ def check_p_t_inventory(ctx, rep):
                     rep.check('C04.E', key, verdict, where(m, fn), None, why)
 
 
+def check_time_enters_as_it_is(ctx, rep) -> int:
+    """(E) time enters p_t as it is: no floor / clamp / absolute value on the branch lengths (P(0) = I and P(s)P(t) = P(s + t) need t itself)"""
+    nt = 0
+    for mname, m in sorted(ctx.prog.modules.items()):
+        if not mname.startswith('torchtree.evolution.substitution_model'):
+            continue
+        for fn in [f for f in ast.walk(m.tree) if isinstance(f, ast.FunctionDef)]:
+            cl_ = getattr(fn, '_parent', None)
+            scope = f"{cl_.name}.{fn.name}" if isinstance(cl_, ast.ClassDef) else fn.name
+            if fn.name.startswith('p_t') and len(fn.args.args) > 1:
+                t = fn.args.args[1].arg
+                nt += 1
+                alt = [c for c in ast.walk(fn) if isinstance(c, ast.Call) and isinstance(c.func, ast.Attribute) and c.func.attr in ('clamp', 'clamp_min', 'clamp_max', 'clip', 'abs', 'relu', 'maximum', 'minimum', 'round')
+                       and any(isinstance(x, ast.Name) and x.id == t for x in ast.walk(c))]
+                rep.check('C04.E', f"{mname.split('.')[-1]}::{scope}::time-enters-as-it-is", not alt, where(m, alt[0] if alt else fn), {'alterations': [norm_text(x)[:50] for x in alt]},
+                          f"{scope}: `{norm_text(alt[0])[:50] if alt else ''}` alters the branch lengths before the exponential: P(0) is no longer the identity and P(s)P(t) ≠ P(s + t) "
+                          f"whenever an argument is below the floor")
+    return nt
+
+
 def run(ctx, rep):
     from sa import callbind
     callbind.run_for(ctx, rep, 'C04', 14)
@@ -953,15 +973,7 @@ def run(ctx, rep):
                     rep.check('C04.N', f"{mname.split('.')[-1]}::{scope}::eigen-of-the-normalised-matrix", normalised, where(m, c), {'argument': norm_text(c.args[0])[:80]},
                               f"{scope} decomposes `{norm_text(c.args[0])[:60]}`, a matrix that was not divided by the normalisation −Σπ_iQ_ii: P(t) built from it runs at the raw "
                               f"rate of the table (WAG: 5.7 % too fast) — exp(Qt) of a matrix that is not scaled to one substitution per unit time")
-            # (E) time enters p_t as it is: no floor / clamp / absolute value on the branch lengths (P(0) = I and P(s)P(t) = P(s + t) need t itself)
-            if fn.name.startswith('p_t') and len(fn.args.args) > 1:
-                t = fn.args.args[1].arg
-                nt += 1
-                alt = [c for c in ast.walk(fn) if isinstance(c, ast.Call) and isinstance(c.func, ast.Attribute) and c.func.attr in ('clamp', 'clamp_min', 'clamp_max', 'clip', 'abs', 'relu', 'maximum', 'minimum', 'round')
-                       and any(isinstance(x, ast.Name) and x.id == t for x in ast.walk(c))]
-                rep.check('C04.E', f"{mname.split('.')[-1]}::{scope}::time-enters-as-it-is", not alt, where(m, alt[0] if alt else fn), {'alterations': [norm_text(x)[:50] for x in alt]},
-                          f"{scope}: `{norm_text(alt[0])[:50] if alt else ''}` alters the branch lengths before the exponential: P(0) is no longer the identity and P(s)P(t) ≠ P(s + t) "
-                          f"whenever an argument is below the floor")
+    nt = check_time_enters_as_it_is(ctx, rep)
     if ne < 2 or nt < 5:
         rep.incomplete('C04.N', 'round-19-clauses', '', f"only {ne} eigen calls / {nt} p_t methods found")
     # (B) MG94: each of kappa / alpha / beta multiplies the pairs of ITS class and leaves the others alone (factor one): a select between two parameters gives the pairs
